@@ -9,7 +9,7 @@ from ..seams import Sim
 PROP = 'C17'
 LEVEL = 'fault_enumeration'
 CASES_ARE_COUNTED = True
-TIERS = {'quick': {'runs': 700, 'budget_s': 50}, 'thorough': {'runs': 100000, 'budget_s': 900}}
+TIERS = {'quick': {'runs': 650, 'budget_s': 55}, 'thorough': {'runs': 100000, 'budget_s': 900}}
 RULE = ('one run = one seeded world: a query (library of finite-shallow, finite-deep, infinite-answer, non-terminating, left-recursive and doubly '
         'recursive programs with seeded list lengths, or a generated finite program), caller depth in {0,7,23}, initial process limit in {650,1000,3000, caller depth + 60, caller depth + 150}, '
         'query held by the caller or passed inline, projection = answer index or recursive to_python, registry of all variables on/off. Per world the '
